@@ -9,9 +9,9 @@ MX=/tmp/mx$$
 mkdir -p $MX
 [ -x engine/egfacts/target/release/egfacts ] || (cd engine/egfacts && CARGO_NET_OFFLINE=true cargo +nightly build --release --offline >/dev/null 2>&1)
 IDS=$(python3 -c "import json;print(' '.join(c['property_id'] for c in json.load(open('MANIFEST.json'))['checks']))")
-ls -d seeded/_incoming/*/[A-Z] | grep -E "${ONLY:-.}" | awk '{print NR%5, $0}' > $MX/jobs.txt
+ls -d seeded/_incoming/*/[A-Z] | grep -E "${ONLY:-.}" | awk -v n=${WORKERS:-5} '{print NR%n, $0}' > $MX/jobs.txt
 : > $MX/result.tsv
-for w in 0 1 2 3 4; do
+for w in $(seq 0 $((${WORKERS:-5}-1))); do
  ( grep "^$w " $MX/jobs.txt | while read _ job; do
      id=$(basename $(dirname $job)); v=$(basename $job)
      WT=$MX/wt$w; rm -rf $WT; git -C /repo worktree prune; git -C /repo worktree add --detach $WT HEAD >/dev/null 2>&1
